@@ -17,6 +17,14 @@
  * Probes (cases 8, 10, 11 mod 50, unless argv[4] == "noprobe"): ANwriteann with an empty text (an-write-empty);
  * DFANgetfid without DFANgetfidlen repeats the last label (dfan-getf-repeat); DFAN's per-file-name directory cache
  * misses annotations written through AN* (dfan-stale-dir).
+ * Sessions on a file that STAYS OPEN (filerec_t keeps the four trees, the annotation atoms and the four counts between
+ * ANstart and ANend, and the record outlives ANend): after the first session 60 % of the cases run 1-3 further sessions
+ * separated by ANend only (`endan`) and ANstart again (`restart`) - on the same file id, or on a second file id of the
+ * same file record opened before / after the ANend, the first id closed before the ANstart or kept open to the end.
+ * In the gap annotations of all four types are added or rewritten while no session is open: DFANaddfid/DFANaddfds on
+ * the open file id (`dfaddf`), Hputelement on the open file id (`hput`, all four tags), a whole DFAN session by file
+ * name.  Every session creates/rewrites through AN, then compares lists, counts, ids, lengths and texts of all four
+ * types with the shadow (verify_all + ANfileinfo on the loaded trees).
  * Oracles (model-independent): the shadow list below (type, ref, target, bytes; creation order).
  */
 #ifdef DFAN_C
@@ -68,6 +76,17 @@ static void pick_target(int *t, int *r)
     static const int T[] = {DFTAG_NDG, DFTAG_RIG, DFTAG_VG, 1000, 65535};
     *t = HK_PICK(T); *r = hk_chance(85) ? (int)hk_range(1, 4) : (int)hk_range(1, 65535);
 }
+/* ANfileinfo against the shadow: the number of annotations of each of the four types */
+static void check_counts(const char *key, const char *when)
+{
+    int32 a, b, c, d, cnt[4] = {0, 0, 0, 0};
+    if (ANfileinfo(an, &a, &b, &c, &d) == FAIL) { printf("T an fileinfo => fail\n"); hk_fail("an-fileinfo", "ANfileinfo (%s)", when); return; }
+    printf("T an fileinfo => %d,%d,%d,%d\n", (int)a, (int)b, (int)c, (int)d);
+    for (int i = 0; i < nsa; i++) cnt[sa[i].type]++;
+    if (a != cnt[AN_FILE_LABEL] || b != cnt[AN_FILE_DESC] || c != cnt[AN_DATA_LABEL] || d != cnt[AN_DATA_DESC])
+        hk_fail(key, "%s: ANfileinfo reports %d,%d,%d,%d file labels, file descriptions, object labels, object descriptions; %d,%d,%d,%d exist", when,
+                (int)a, (int)b, (int)c, (int)d, cnt[2], cnt[3], cnt[0], cnt[1]);
+}
 static int open_an(int create, int info)
 {
     fid = Hopen(path, create ? DFACC_CREATE : DFACC_RDWR, (int16)(hk_chance(50) ? 0 : 2 * hk_range(2, 20)));
@@ -75,26 +94,27 @@ static int open_an(int create, int info)
     an = ANstart(fid);
     if (an == FAIL) { hk_fail("an-start", "ANstart"); Hclose(fid); fid = FAIL; return -1; }
     printf("T an start => ok\n");
-    if (info) {
-        int32 a, b, c, d, cnt[4] = {0, 0, 0, 0};
-        if (ANfileinfo(an, &a, &b, &c, &d) == FAIL) { hk_fail("an-fileinfo", "ANfileinfo"); return 0; }
-        printf("T an fileinfo => %d,%d,%d,%d\n", (int)a, (int)b, (int)c, (int)d);
-        for (int i = 0; i < nsa; i++) if (sa[i].written) cnt[sa[i].type]++;
-        if (a != cnt[AN_FILE_LABEL] || b != cnt[AN_FILE_DESC] || c != cnt[AN_DATA_LABEL] || d != cnt[AN_DATA_DESC])
-            hk_fail("an-count", "ANfileinfo %d,%d,%d,%d shadow %d,%d,%d,%d", (int)a, (int)b, (int)c, (int)d, cnt[2], cnt[3], cnt[0], cnt[1]);
-    }
+    if (info) check_counts("an-count", create ? "new file" : "after reopen");
     return 0;
+}
+static int32 extra_fid[8];
+static int   nextra;
+/* annotations that were created but never written do not exist in the file */
+static void shadow_drop_unwritten(void)
+{
+    int j = 0;
+    for (int i = 0; i < nsa; i++) if (sa[i].written) sa[j++] = sa[i];
+    nsa = j;
 }
 static void close_an(void)
 {
     if (fid == FAIL) return;
-    if (ANend(an) == FAIL) hk_fail("an-end", "ANend");
+    if (an != FAIL && ANend(an) == FAIL) hk_fail("an-end", "ANend");
+    an = FAIL;
     if (Hclose(fid) == FAIL) hk_fail("an-hclose", "Hclose");
     fid = FAIL;
-    /* annotations that were created but never written do not exist in the file */
-    int j = 0;
-    for (int i = 0; i < nsa; i++) if (sa[i].written) sa[j++] = sa[i];
-    nsa = j;
+    while (nextra > 0) if (Hclose(extra_fid[--nextra]) == FAIL) hk_fail("an-hclose", "Hclose of an older file id of the same file");
+    shadow_drop_unwritten();
 }
 static int32 id_of(SA *a)
 {
@@ -214,20 +234,35 @@ static void q_select(int type)
     printf("T an gettagref %d %d => ", type, idx); if (res == FAIL) printf("fail\n"); else printf("%d,%d\n", t2, r2);
     if (res != FAIL && id != FAIL && (t2 != tg || r2 != rf)) hk_fail("an-gettagref", "ANget_tagref and ANselect disagree");
 }
-/* every index of every type exactly once */
+/* every index of every type exactly once: the listing of a type is exactly the set of annotations that exist (cnt known
+ * refs, pairwise different, and no entry at index cnt); the ids the listing hands out are usable (length) and map back
+ * to themselves through their tag/ref */
 static void q_walk(void)
 {
     for (int type = 0; type < 4; type++) {
-        int cnt = 0, seen[MAXA];
+        int cnt = 0, seen[MAXA], ok = 1;
         for (int i = 0; i < nsa; i++) if (sa[i].type == type) cnt++;
         for (int idx = 0; idx < cnt; idx++) {
             int32 id = ANselect(an, idx, (ann_type)type);
             uint16 tg = 0, rf = 0;
             if (id != FAIL) ANid2tagref(id, &tg, &rf);
             printf("T an select %d %d => ", type, idx); if (id == FAIL) printf("fail\n"); else printf("%d\n", rf);
-            if (id == FAIL || !sa_find(type, rf)) { hk_fail("an-walk", "ANselect(%d,%d) fails or is unknown", idx, type); break; }
+            SA *a = id == FAIL ? NULL : sa_find(type, rf);
+            if (!a) { hk_fail("an-walk", "ANselect(%d,%d) fails or is unknown", idx, type); ok = 0; break; }
             for (int j = 0; j < idx; j++) if (seen[j] == rf) hk_fail("an-walk", "ref %d selected twice", rf);
             seen[idx] = rf;
+            if (ANtagref2id(an, tg, rf) != id) hk_fail("an-id-map", "ANtagref2id(ANid2tagref(id)) is not the id ANselect(%d, type %d) returned", idx, type);
+            if (a->written) {
+                int32 l = ANannlen(id);
+                printf("T an annlen %d %d => ", type, rf); if (l == FAIL) printf("fail\n"); else printf("%d\n", (int)l);
+                if (l != a->len) hk_fail("an-select-len", "ANannlen of the id ANselect(%d, type %d) returned = %d, the annotation (ref %d) has %d bytes", idx, type, (int)l, rf, a->len);
+            }
+        }
+        if (ok) {
+            int32 id = ANselect(an, cnt, (ann_type)type);
+            printf("T an select %d %d => ", type, cnt);
+            if (id == FAIL) printf("fail\n");
+            else { uint16 tg = 0, rf = 0; ANid2tagref(id, &tg, &rf); printf("%d\n", rf); hk_fail("an-walk", "type %d: %d annotations exist, ANselect(%d) returns one more (ref %d)", type, cnt, cnt, rf); }
         }
     }
 }
@@ -333,6 +368,102 @@ static void dfan_session(void)
         }
         Hclose(f);
     }
+}
+
+/* ---------------------------------------------------------------- several AN sessions on a file that stays open */
+static void put_sa(int type, int ref, int et, int er, const uint8_t *t, int len)
+{
+    SA *n = sa_find(type, ref);
+    if (!n) { if (nsa >= MAXA) return; n = &sa[nsa++]; n->type = type; n->ref = ref; n->etag = et; n->eref = er; }
+    memcpy(n->text, t, (size_t)len); n->len = len; n->written = 1;
+}
+/* ANend alone: the file id (and the file record with its annotation state) stays open */
+static void end_session(void)
+{
+    int32 r = ANend(an);
+    printf("T an endan => %s\n", r == FAIL ? "fail" : "ok");
+    if (r == FAIL) hk_fail("an-end", "ANend on a file that stays open");
+    an = FAIL;
+    shadow_drop_unwritten();
+}
+/* ANstart on a file id of the file record that never was closed */
+static int restart_session(int info, const char *when)
+{
+    an = ANstart(fid);
+    printf("T an restart => %s\n", an == FAIL ? "fail" : "ok");
+    if (an == FAIL) { hk_fail("an-start", "ANstart (%s)", when); return -1; }
+    if (info) check_counts("an-session-count", when);
+    return 0;
+}
+/* annotations written while NO annotation session is open, through an open file id of the file */
+static void gap_writes(int32 f, int n)
+{
+    uint8_t t[TMAX + 8]; int len;
+    for (int i = 0; i < n && nsa < MAXA; i++) {
+        int a = (int)hk_range(0, 9);
+        if (a < 3) { /* single-file interface on the open file id */
+            int type = hk_chance(50) ? AN_FILE_LABEL : AN_FILE_DESC;
+            gen_text(type, t, &len);
+            int r = type == AN_FILE_LABEL ? DFANaddfid(f, (char *)t) : DFANaddfds(f, (char *)t, len);
+            int lr = DFANlastref();
+            printf("T an dfaddf %d %d ", type, lr); hk_hex(t, (size_t)len); printf(" => %s\n", r == FAIL ? "fail" : "ok");
+            if (r == FAIL) { hk_fail("dfan-addf", "DFANaddf%s on the open file id failed (len %d)", type == AN_FILE_LABEL ? "id" : "ds", len); continue; }
+            if (sa_find(type, lr)) hk_fail("an-ref-fresh", "DFANaddf: new annotation got ref %d in use", lr);
+            put_sa(type, lr, TAGOF[type], lr, t, len);
+            hk_stat("gap_dfaddf", 1);
+        }
+        else { /* H level: a new annotation element of any of the four types, or an existing one rewritten in place */
+            SA *x = (a >= 7 && nsa) ? &sa[hk_range(0, nsa - 1)] : NULL;
+            int type = x ? x->type : (int)hk_range(0, 3), et, er, ref;
+            if (x) { et = x->etag; er = x->eref; ref = x->ref; }
+            else {
+                ref = Htagnewref(f, TAGOF[type]);
+                if (ref == 0) { hk_fail("an-newref", "Htagnewref"); continue; }
+                if (is_data(type)) pick_target(&et, &er); else { et = TAGOF[type]; er = ref; }
+                if (sa_find(type, ref)) hk_fail("an-ref-fresh", "Htagnewref gives ref %d of a live annotation", ref);
+            }
+            int off = is_data(type) ? 4 : 0;
+            gen_text(type, t + off, &len);
+            if (off) { t[0] = (uint8_t)(et >> 8); t[1] = (uint8_t)et; t[2] = (uint8_t)(er >> 8); t[3] = (uint8_t)er; }
+            /* a rewrite gives up the old data first, as ANIwriteann does (Hputelement alone keeps the old, longer extent) */
+            if (x && HDreuse_tagref(f, TAGOF[type], (uint16)ref) == FAIL) { hk_fail("an-hput", "HDreuse_tagref of an annotation element failed"); continue; }
+            int32 r = Hputelement(f, TAGOF[type], (uint16)ref, t, len + off);
+            printf("T an hput %d %d ", TAGOF[type], ref); hk_hex(t, (size_t)(len + off)); printf(" => %s\n", r == FAIL ? "fail" : "ok");
+            if (r == FAIL) { hk_fail("an-hput", "Hputelement of an annotation element failed"); continue; }
+            put_sa(type, ref, et, er, t + off, len);
+            hk_stat(x ? "gap_hput_rewrite" : "gap_hput_new", 1);
+        }
+    }
+}
+static void dfan_session(void);
+/* session boundary without closing the file; mode 0: same file id; 1: second id opened before ANend, first closed after
+ * it; 2: second id opened after ANend, first closed before ANstart; 3: second id, the first stays open to the end */
+static int next_session(int k)
+{
+    char when[64];
+    int  mode = hk_chance(40) ? 0 : (int)hk_range(1, 3);
+    int32 f2 = FAIL;
+    if (nextra >= 7 && mode == 3) mode = 2;
+    snprintf(when, sizeof when, "session %d on the open file (id mode %d)", k, mode);
+    if (mode == 1) f2 = Hopen(path, hk_chance(50) ? DFACC_RDWR : DFACC_READ, 0);
+    end_session();
+    if (mode >= 2) f2 = Hopen(path, hk_chance(50) ? DFACC_RDWR : DFACC_READ, 0);
+    if (mode && f2 == FAIL) { hk_fail("an-open", "second Hopen of the open file"); mode = 0; }
+    gap_writes(hk_chance(50) || f2 == FAIL ? fid : f2, (int)hk_range(0, 2));
+    if (mode == 1 || mode == 2) { if (Hclose(fid) == FAIL) hk_fail("an-hclose", "Hclose of the first file id"); fid = f2; }
+    else if (mode == 3) { extra_fid[nextra++] = fid; fid = f2; }
+    gap_writes(fid, (int)hk_range(0, 2));
+    if (hk_chance(20)) { dfan_session(); hk_stat("gap_dfan_session", 1); }
+    hk_stat(mode == 0 ? "session_same_id" : mode == 1 ? "session_id2_before_end" : mode == 2 ? "session_id2_after_end" : "session_id2_both_open", 1);
+    if (restart_session(hk_chance(60), when) < 0) return -1;
+    int n = (int)hk_range(0, 4);
+    for (int i = 0; i < n; i++) {
+        if (hk_chance(60) || nsa == 0) do_create();
+        else { SA *x = &sa[hk_range(0, nsa - 1)]; int32 id = id_of(x); if (id != FAIL) { do_write(x, id); q_read(x, id); } }
+    }
+    verify_all(when);
+    check_counts("an-session-count", when);
+    return 0;
 }
 
 static void probe_create_first(void)
@@ -502,7 +633,7 @@ static void probe_dfan_multi(void)
 static void run_case(int k)
 {
     path = hk_tmp("a.hdf");
-    nsa = 0;
+    nsa = 0; nextra = 0; an = FAIL;
     if (k % 50 >= 12 && k % 50 <= 15) { printf("INFO dfan-multi-file\n"); probe_dfan_multi(); return; }
     if (k % 50 == 7) { printf("INFO create-first\n"); probe_create_first(); return; }
     if (probes_on && k % 50 == 8) { printf("INFO probe empty-text\n"); probe_empty_text(); return; }
@@ -549,6 +680,10 @@ static void run_case(int k)
         }
     }
     verify_all("same-session");
+    if (hk_chance(60)) {
+        int ns = (int)hk_range(1, 3);
+        for (int i = 0; i < ns; i++) if (next_session(i + 2) < 0) break;
+    }
     close_an();
     if (hk_chance(70)) dfan_session();
     int info = hk_chance(70);
